@@ -58,6 +58,8 @@ class Runner:
             if op[0] == "Step" and op[3] not in w.live:
                 outs.append(None)       # the subroutine already ended or died (shrinking removes events)
                 continue
+            if op[0] != "Step" and qi.op_pid(op) in w.stopping:
+                wf = False              # messages of ONE application are handled in order (contract)
             out, ob, bad = self.do(w, op, contract_ok=contract_ok and wf)
             outs.append(out)
             fails += [(i, b) for b in bad]
@@ -80,7 +82,7 @@ def from_json(x):
 
 
 # ---------------------------------------------------------------------- generation
-def gen_walk(rng, runner, length, stats, interleave=True):
+def gen_walk(rng, runner, length, stats, interleave=True, stepped_stop=False):
     """stateful random walk: the next operation is chosen looking at the harness's own
     lifecycle record (registered apps, reserved qubits); returns the op list"""
     w = runner.world()
@@ -129,6 +131,14 @@ def gen_walk(rng, runner, length, stats, interleave=True):
             if w.live and (len(w.live) >= 3 or rng.random() < 0.62):
                 label = rng.choice(sorted(w.live))
                 op = ("Step", w.live[label]["nd"], w.live[label]["app"], label)
+            elif stepped_stop and rng.random() < 0.3:
+                # a StopAppMessage handled step by step (suspended at the yields of stop_application)
+                cands = [k for k in w.registered if k[0] == nd and (nd, k[1]) not in w.stopping
+                         and not any(x["nd"] == nd and x["app"] == k[1] for x in w.live.values())]
+                if not cands:
+                    continue
+                nlabel += 1
+                op = ("StopStart", nd, rng.choice(sorted(cands))[1], nlabel)
             else:
                 a = pick_app(nd, True)
                 nlabel += 1
@@ -137,7 +147,14 @@ def gen_walk(rng, runner, length, stats, interleave=True):
             r = rng.random()
             if not any(k[0] == nd for k in w.registered):
                 r = r * 0.12
-            if r < 0.10:
+            if r < 0.012 and w.registered:
+                # the process-wide registry is reset behind the controllers' back; a registration of a
+                # RUNNING application id follows
+                op = ("ResetMem", 0)
+                k = rng.choice(sorted(w.registered))
+                if rng.random() < 0.7:
+                    force = ("Init", k[0], k[1], rng.choice([1, 2, 3]))
+            elif r < 0.10:
                 a = pick_app(nd, False)
                 n = rng.choice([1, 2, 3, 4, 4, 2, 0])
                 op = ("Init", nd, a, n)
@@ -193,6 +210,8 @@ def gen_walk(rng, runner, length, stats, interleave=True):
             else:
                 a = pick_app(nd, True)
                 op = ("RetArr", nd, a, rng.randrange(6))
+        if op[0] != "Step" and qi.op_pid(op) in w.stopping:
+            continue        # messages of one application are handled in order: nothing for it while its stop runs
         out = w.apply(op)
         if op[0] == "Init" and out == 0:
             sizes[(op[1], op[2])] = op[3]
@@ -284,14 +303,17 @@ def interleavings(runner, subs, prefix, report):
     def expand(path, parent, progress):
         for (label, nd, app, blocks) in subs:
             done = progress[label]
-            if done >= len(blocks):
+            if blocks != "STOP" and done >= len(blocks):
                 continue
-            ev = ("Start", nd, app, label, tuple(blocks)) if done == 0 else ("Step", nd, app, label)
+            if blocks == "STOP":
+                ev = ("StopStart", nd, app, label) if done == 0 else ("Step", nd, app, label)
+            else:
+                ev = ("Start", nd, app, label, tuple(blocks)) if done == 0 else ("Step", nd, app, label)
             w = runner.world()
             for o in path:
                 w.apply(o)
             if ev[0] == "Step" and label not in w.live:
-                continue          # died at a fault
+                continue          # ended, or died at a fault
             out, ob, bad = runner.do(w, ev)
             count[0] += 1
             npath = path + [ev]
@@ -299,17 +321,32 @@ def interleavings(runner, subs, prefix, report):
             runner.ctx.note_case(str(npath), nontrivial=True)
             for b in bad:
                 report(npath, len(npath) - 1, b)
+            np_ = dict(progress)
+            np_[label] = done + 1
             if not chain:
+                if blocks == "STOP":
+                    expand(npath, parent, np_)      # oracle only: no model nodes
                 continue
             (roots if parent is None else parent["kids"]).append(chain[0])
             for x, y in zip(chain, chain[1:]):
                 x["kids"].append(y)
-            np_ = dict(progress)
-            np_[label] = done + 1
             expand(npath, chain[-1], np_)
 
     expand(prefix, parent0, {s_[0]: 0 for s_ in subs})
     return roots, count[0]
+
+
+def stop_interleave_scenarios(tier):
+    """a StopAppMessage handled step by step (suspended at the yields of stop_application) interleaved
+    with a subroutine of another application that allocates; oracle only"""
+    pre = [("Init", 0, 0, 2), ("Init", 0, 1, 2), ("QAlloc", 0, 1, 0), ("QAlloc", 0, 1, 1)]
+    A = (1, 0, 0, [("QAlloc", 0, 0, 0), ("QAlloc", 0, 0, 1)] + ([("QFree", 0, 0, 0)] if tier != "quick" else []))
+    S = (2, 0, 1, "STOP")
+    sc = [("stop-of-app1-vs-allocations-of-app0", [A, S], pre)]
+    if tier != "quick":
+        pre2 = pre + [("Init", 0, 2, 2), ("QAlloc", 0, 2, 1)]
+        sc.append(("two-stops-vs-allocations", [A, S, (3, 0, 2, "STOP")], pre2))
+    return sc
 
 
 def interleave_scenarios(tier):
@@ -385,6 +422,12 @@ def run(ctx):
                       "(id -> subroutine, program counter) routes a resumed subroutine's instructions to its own application "
                       "is checked by the correspondence and the isolation oracle under generated and enumerated interleavings, "
                       "not proved")
+    ctx.assume.append("a StopAppMessage handled step by step (suspended at the yields of stop_application) passes through "
+                      "states the atomic model does not have: histories containing one are checked by the oracle only "
+                      "(invariant at every step with the not yet released qubits accounted for, isolation at every step); "
+                      "messages of ONE application are handled in order (no Init / subroutine of an id while its stop is "
+                      "suspended) -- with the unchanged code such an Init is refused but QNodeController._add_app has "
+                      "already marked the id active")
     ctx.assume.append("Stop is modelled exactly only when set.remove cannot miss (proved under the invariant: C13_no_internal_fault)")
 
     violations = []
@@ -406,17 +449,25 @@ def run(ctx):
                     report(ops, step, b)
     ctx.coverage["corpus_cases"] = n_corpus
 
+    def oracle_only(ops):
+        """a stop handled step by step passes through states the atomic model does not have"""
+        return any(o[0] == "StopStart" for o in ops)
+
     # ---- random walks
     quick = ctx.tier == "quick"
-    n_walks = 220 if quick else 2000
+    n_walks = 220 if quick else 1200
     stats = {}
     trees = []
     lens = {}
+    n_oracle_only = 0
     for hno in range(n_walks):
         length = ctx.rng.choice([8, 15, 25, 40, 60] if quick else [8, 15, 25, 40, 60, 120])
-        ops = gen_walk(ctx.rng, runner, length, stats)
-        root, fl, outs, _ = runner.run_history(ops)
-        trees.append(root)
+        ops = gen_walk(ctx.rng, runner, length, stats, stepped_stop=(hno % 4 == 3))
+        root, fl, outs, _ = runner.run_history(ops, want_tree=not oracle_only(ops))
+        if root is not None:
+            trees.append(root)
+        else:
+            n_oracle_only += 1
         lens[length] = lens.get(length, 0) + 1
         mapped_any = any(o[0] in ("QAlloc", "Keep") and out == 0 for o, out in zip(ops, outs))
         ctx.note_case(str(ops), nontrivial=mapped_any and len(ops) >= 2)
@@ -425,6 +476,7 @@ def run(ctx):
         for step, b in fl:
             report(ops[:step + 1], step, b)
     ctx.coverage["walk_lengths"] = lens
+    ctx.coverage["walks_with_stepped_stop_oracle_only"] = n_oracle_only
     ctx.coverage["op_and_outcome_distribution"] = stats
 
     # ---- exhaustive small histories
@@ -441,8 +493,15 @@ def run(ctx):
         r_, c_ = interleavings(runner, subs, pre, report)
         il_roots.append(r_)
         il_info[name] = dict(subroutines=len(subs), blocks=[len(x[3]) for x in subs], nodes=c_)
+    for name, subs, pre in stop_interleave_scenarios(ctx.tier):
+        _, c_ = interleavings(runner, subs, pre, report)
+        il_info[name] = dict(participants=len(subs), nodes=c_, oracle_only=True)
     ctx.coverage["every_interleaving_scenarios"] = il_info
-    ex_nodes += rel_nodes + sum(v["nodes"] for v in il_info.values())
+    # an external reset of the shared-memory registry, then everything
+    rst_prefix = [("Init", 0, 0, 2), ("QAlloc", 0, 0, 0), ("ResetMem", 0)]
+    rst_roots, rst_nodes = exhaustive(runner, 2 if quick else 3, report, alphabet=ALPHABET, prefix=rst_prefix)
+    ctx.coverage["exhaustive_after_registry_reset"] = dict(prefix=jsonable(rst_prefix), depth=2 if quick else 3, nodes=rst_nodes)
+    ex_nodes += rel_nodes
     ctx.log(f"implementation runs done: {n_walks} walks, {ex_nodes} exhaustive nodes, oracle failures {len(violations)}")
 
     # ---- malformed stream: the contract broken on purpose (assumption evidence, model must still agree)
@@ -487,6 +546,8 @@ def run(ctx):
     for i, r in enumerate(ex_roots):
         files[f"cases_exh_{i}.v"] = [r]
     files["cases_release.v"] = rel_roots
+    files["cases_reset.v"] = rst_roots
+    ex_nodes += rst_nodes + sum(v["nodes"] for v in il_info.values())
     for i, r in enumerate(il_roots):
         files[f"cases_interleave_{i}.v"] = r
     files["cases_malformed.v"] = malformed
